@@ -67,6 +67,7 @@ structure SState where
   nextRef : Nat := 0
   cap : List (Str × Closure) := []       -- fills found while reading a component body
   path : List Str := []                  -- names of the instances being rendered, outermost first
+  steps : Nat := 0
   paths : List (List Str) := []          -- the path of every instance (the rendered structure)
 deriving Inhabited
 
@@ -165,7 +166,10 @@ mutual
 
   def sNode (env : Env) : Nat → Node → SEnv → S (List Tok)
     | 0, _, _ => throw .outOfFuel
-    | n + 1, nd, e =>
+    | n + 1, nd, e => do
+      let st ← get
+      if st.steps ≥ env.maxSteps then throw .budget
+      set { st with steps := st.steps + 1 }
       match nd with
       | .text s => pure [.text s]
       | .out ex =>
@@ -190,6 +194,7 @@ mutual
       | .slot nameE isDefault isRequired data body => do
         let nameV := evalExpr e.vars nameE
         let slotData := evalKwargs e.vars data
+        if slotData.any (fun kv => tooDeep 10 kv.2) then throw .budget
         let inst ← match e.inst with
           | some i => pure i
           | none => throw (.tse "slot outside component")
